@@ -1,6 +1,9 @@
 package __PKG__
 
-import "sync"
+import (
+	"os"
+	"sync"
+)
 
 // Body-less declarations: the symbolic executor intercepts these. For native replay the file
 // intrinsics_native.go provides bodies instead.
@@ -54,3 +57,12 @@ func verifGo(f func()) {
 
 func verifJoin() { verifWG.Wait() }
 func verifFireTimer()
+func verifFSFaults(on bool)
+func verifFileMode(name string) int
+func verifDirMode(name string) int
+func verifNameLess(a, b string) bool
+func verifFDContent(f *os.File) string
+func verifFDIsName(f *os.File, name string) bool
+func verifStdout() string
+func verifTempDir() string
+func verifNameEq(a, b string) bool
